@@ -240,7 +240,11 @@ impl<Left: Executor, Right: Executor> Executor for NestedLoopJoin<Left, Right> {
                 self.unmatched_right_idx += 1;
 
                 if !self.right_matched[idx] {
-                    let row = nulls_with_right(&self.right_buffer[idx], self.left_cols);
+                    // left_cols is only learnt from the first left row: derive the padding width from
+                    // the output schema so that an empty left input still yields full-width rows
+                    let left_cols =
+                        self.output_schema.num_columns() - self.right_buffer[idx].len();
+                    let row = nulls_with_right(&self.right_buffer[idx], left_cols);
                     self.stats.rows_produced += 1;
                     return Ok(Some(row));
                 }
